@@ -178,6 +178,9 @@ func genPlanC19(def *PropDef, tier string, seed uint64, run int64) *Plan {
 	add := func(op Op) { plan.Ops = append(plan.Ops, op) }
 	sessions := rng.Range(2, 5)
 	for s := 0; s < sessions; s++ {
+		if rng.Chance(12) {
+			add(Op{K: "ro_fresh", A: int64(rng.Pick(40, 60))})
+		}
 		// writer session (the log is open read-write at this point)
 		for i, n := 0, rng.Range(0, 5); i < n; i++ {
 			switch rng.Pick(60, 20, 20) {
@@ -191,7 +194,7 @@ func genPlanC19(def *PropDef, tier string, seed uint64, run int64) *Plan {
 		}
 		add(Op{K: "w_close"})
 		if rng.Chance(35) {
-			add(Op{K: "fail_open", A: int64(rng.Intn(2)), B: int64(rng.Range(1, 3))})
+			add(Op{K: "fail_open", A: int64(rng.Intn(2)), B: int64(rng.Range(1, 3)), C: int64(rng.Pick(20, 50, 10, 20))})
 		}
 		if rng.Chance(35) {
 			if rng.Chance(40) {
@@ -210,10 +213,10 @@ func genPlanC19(def *PropDef, tier string, seed uint64, run int64) *Plan {
 					add(Op{K: "ro_open", H: open})
 					open++
 				} else {
-					add(Op{K: "ro_check", H: rng.Intn(nro)})
+					add(Op{K: "ro_check", H: rng.Intn(nro), A: int64(rng.Pick(60, 40))})
 				}
 			case 1:
-				add(Op{K: "ro_check", H: rng.Intn(nro)})
+				add(Op{K: "ro_check", H: rng.Intn(nro), A: int64(rng.Pick(60, 40))})
 			case 2:
 				add(Op{K: "try_open", A: int64(rng.Intn(2))})
 			case 3:
@@ -387,6 +390,44 @@ func hooksC19() Hooks {
 			if d := snap.diff(logsOnly(snapDir(r.Dir))); d != "" {
 				r.violate("Open("+mode+")|conflict|modified", "a refused Open changed a log file: %s", d)
 			}
+		case "ro_fresh":
+			// a read-only handle on a directory that holds no segment at all
+			dir := filepath.Join(r.Base, fmt.Sprintf("fresh%d", r.Step))
+			o := r.OOpts
+			o.Readonly, o.Check, o.Recover, o.Eager = true, false, false, false
+			var l klevdb.Log
+			if err := guard(func() error {
+				var e error
+				l, e = klevdb.Open(dir, o.K(&r.P.Cfg))
+				return e
+			}); err != nil {
+				r.violate("Open(ro)|fresh-directory|"+errKind(err), "read-only Open of a fresh directory failed: %v", err)
+				return true
+			}
+			empty := NewModel(r.P.Cfg.Keys, r.P.Cfg.Times)
+			vr := &Run{P: r.P, Prop: r.Prop, Base: r.Base, Dir: dir, M: empty, L: l, Probes: r.Probes, Feat: r.Feat, Obs: r.Obs, Ctx: map[string]any{}}
+			q := vr.obsQ(true, false)
+			for round := 0; round < 2; round++ {
+				got := Observe(l, q)
+				if g, d := CheckObsAgainstModel(got, empty); g != "" {
+					r.violate("ro-fresh|battery-vs-model|"+g+fmt.Sprintf("|after-gc=%v", round == 1), "read-only handle on a directory without segments (after GC: %v): %s", round == 1, d)
+					break
+				}
+				if st := got.G["stat"]; len(st) == 1 && st[0] != "Stat=messages:0 segments:0" {
+					r.violate("ro-fresh|stat"+fmt.Sprintf("|after-gc=%v", round == 1), "read-only handle on a directory without segments: %s", st[0])
+					break
+				}
+				if op.A == 1 && round == 0 {
+					if err := guard(func() error { return l.GC(0) }); err != nil {
+						r.violate("ro-fresh|GC|error", "GC failed: %v", err)
+						break
+					}
+				} else if round == 0 {
+					break
+				}
+			}
+			_ = guard(func() error { return l.Close() })
+			r.probe("ro_fresh_directory")
 		case "fail_open":
 			c19FailOpen(r, s, op)
 		case "rmidx":
@@ -423,6 +464,14 @@ func hooksC19() Hooks {
 			}
 			if s.q == nil {
 				return true
+			}
+			if op.A == 1 {
+				// releasing unused resources must not change any answer
+				if err := guard(func() error { return l.GC(0) }); err != nil {
+					r.violate("ro|GC|error", "GC on a read-only handle failed: %v", err)
+					return true
+				}
+				r.probe("ro_gc")
 			}
 			got := Observe(l, s.q)
 			if g, d := CheckObsAgainstModel(got, r.M); g != "" {
@@ -477,8 +526,10 @@ func c19LogsUnchanged(r *Run, s *c19State) {
 func c19FailOpen(r *Run, s *c19State, op *Op) {
 	ro := op.A == 1
 	o := r.OOpts
-	o.Readonly, o.Check, o.Recover, o.Eager = ro, false, false, false
+	// Check makes a read-only Open look at the head's index too (it is lazy otherwise)
+	o.Readonly, o.Check, o.Recover, o.Eager = ro, op.C&1 == 1, false, false
 	opts := o.K(&r.P.Cfg)
+	blocking := op.C&2 == 2
 	kind := op.B
 	writerOpen := r.L != nil
 	if kind != 1 && (writerOpen || len(s.ro) > 0) {
@@ -529,6 +580,14 @@ func c19FailOpen(r *Run, s *c19State, op *Op) {
 		var l klevdb.Log
 		err = guard(func() error {
 			var e error
+			if blocking {
+				var bl klevdb.BlockingLog
+				bl, e = klevdb.OpenBlocking(r.Dir, opts)
+				if e == nil {
+					l = bl
+				}
+				return e
+			}
 			l, e = klevdb.Open(r.Dir, opts)
 			return e
 		})
@@ -549,6 +608,12 @@ func c19FailOpen(r *Run, s *c19State, op *Op) {
 			return
 		}
 		r.probe("open_failed_corrupt_index")
+		if ro {
+			r.probe("open_failed_corrupt_index_ro")
+		}
+		if blocking {
+			r.probe("open_failed_blocking")
+		}
 		// the lock must have been released: an allowed Open succeeds now
 		for _, mode := range []bool{false, true} {
 			oo := r.OOpts
@@ -560,7 +625,7 @@ func c19FailOpen(r *Run, s *c19State, op *Op) {
 				return e
 			})
 			if err2 != nil {
-				r.violate("Open|after-failed-open|"+errKind(err2)+"|failed-mode="+map[bool]string{false: "rw", true: "ro"}[ro], "after an Open (readonly=%v) that failed with %q, Open(readonly=%v) of the repaired directory failed: %v", ro, err, mode, err2)
+				r.violate("Open|after-failed-open|"+errKind(err2)+"|failed-mode="+map[bool]string{false: "rw", true: "ro"}[ro], "after an Open (readonly=%v, blocking=%v) that failed with %q, Open(readonly=%v) of the repaired directory failed: %v", ro, blocking, err, mode, err2)
 				return
 			}
 			_ = guard(func() error { return l2.Close() })
